@@ -1,4 +1,4 @@
-import PromProofs.DbRun
+import PromProofs.DbClean
 /-
   C01 refinement: `DB.Delete`. Exactly the samples of the selected series inside the closed range
   disappear. The coverage property of `Intervals.add` is an explicit hypothesis (`AddCoversAt`),
